@@ -612,6 +612,9 @@ def eval_model(rp):
 SINGLE = ['cacg', 'watson', 'vmf', 'gaussian', 'bingham']
 
 
+_OM = [0]
+
+
 def case_single(rng, tier, i, degen=False, which=None, force_finite=False):
     which = which or SINGLE[int(rng.integers(0, len(SINGLE)))]
     D = int(rng.integers(2, 6))
@@ -657,7 +660,10 @@ def case_single(rng, tier, i, degen=False, which=None, force_finite=False):
         to = {'max_concentration': float(rng.choice([500, 50, 5] if force_finite else [np.inf, np.inf, 500, 50, 5]))}
     rp = {'fn': 'single', 'which': which, 'y': y, 'opts': o, 'trainer_opts': to, 'degenerate': mode,
           'pick_seed': int(rng.integers(0, 2 ** 31))}
-    label = 'fit %s D=%d N=%d lead=%s degenerate=%s trainer=%s opts=%s' % (which, D, N, lead, mode, to, mm.describe_options(o))
+    _OM[0] += 1
+    if which == 'cacg' and _OM[0] % 2 == 0:
+        rp['omit'] = [['eigenvalue_floor'], ['eigenvalue_floor', 'covariance_norm', 'hermitize'], ['eigenvalue_floor', 'iterations']][(_OM[0] // 2) % 3]
+    label = 'fit %s D=%d N=%d lead=%s degenerate=%s trainer=%s opts=%s defaults=%s' % (which, D, N, lead, mode, to, mm.describe_options(o), rp.get('omit', []))
     fail, key, coq, raised, nt = eval_single(rp)
     return Case(label, coq=coq, pred_fail=fail, key=key, nontrivial=nt, digest_=core.digest(label, y, o.get('saliency')),
                 sample={'name': label}, replay=rp, raised=raised, kind=('degenerate/' if degen else 'single/') + which)
@@ -671,6 +677,12 @@ def eval_single(rp):
     y = np.array(rp['y'])
     y.setflags(write=False)
     o = dict(rp['opts'])
+    # options the caller leaves to their documented defaults: omitted from the call, expected at the documented value
+    DEFAULTS = {'cacg': {'hermitize': True, 'covariance_norm': 'eigenvalue', 'eigenvalue_floor': 1e-10, 'iterations': 10}}
+    omit = [k for k in rp.get('omit', []) if k in DEFAULTS.get(which, {})]
+    call_o = {k: v for k, v in o.items() if k not in omit}
+    for k in omit:
+        o[k] = DEFAULTS[which][k]
     to = dict(rp.get('trainer_opts') or {})
     tag = '%s:%s' % (which, deg or 'regular')
     N, D = y.shape[-2:]
@@ -687,7 +699,7 @@ def eval_single(rp):
                     qrec.append(np.array(kw['quadratic_form']))
                     return orig(*a, **kw)
                 T._fit = wrapped
-                model = T.fit(y, **o)
+                model = T.fit(y, **call_o)
             elif which == 'watson':
                 T = d.ComplexWatsonTrainer(**to)
                 model = T.fit(y, **o)
